@@ -401,6 +401,53 @@ fn c04_after_copy(ctx: &mut Ctx, valid: &[u8], damaged: &[u8], fault: &'static s
     }
 }
 
+/// several damaged copies back to back in one buffer (a noisy link damages frames in runs): whatever the scanner
+/// concluded about one candidate must not colour its verdict on the next.  Oracle: no frame is delivered at any of
+/// the copies' start offsets (frames nested inside a payload may legitimately be found elsewhere).
+fn c04_run_of_damaged(ctx: &mut Ctx, parts: &[&[u8]], detail: impl Fn() -> Value) {
+    ctx.eval();
+    ctx.count("runs_of_damaged_frames_in_one_buffer");
+    let mut buf: Vec<u8> = Vec::new();
+    let mut bounds: Vec<usize> = Vec::new();
+    for p in parts {
+        bounds.push(buf.len());
+        buf.extend_from_slice(p);
+    }
+    ctx.nontrivial(hash_bytes(&buf));
+    let r = guard(|| {
+        let mut starts: Vec<usize> = Vec::new();
+        let mut it = MsgFrameIter::new(&buf);
+        let mut calls = 0;
+        while let Some(fr) = (&mut it).next() {
+            starts.push(it.consumed() - fr.frame_len());
+            calls += 1;
+            if calls > buf.len() + 1 {
+                break;
+            }
+        }
+        // the stateless entry point, one call over the whole run
+        let (c, f) = next_msg_frame(&buf);
+        if let Some(f) = f {
+            starts.push(c - f.frame_len());
+        }
+        starts
+    });
+    let rp = || json!({"kind":"run_of_damaged","parts":parts.iter().map(|p| hex(p)).collect::<Vec<_>>(),"fault":detail()});
+    match r {
+        Err(p) => ctx.panic_violation("C04.no_panic", &p, "scanning a run of damaged frames", rp()),
+        Ok(starts) => {
+            if let Some(b) = bounds.iter().position(|b| starts.contains(b)) {
+                ctx.violation(
+                    "C04.rejected|run_of_damaged_frames|delivered".into(),
+                    "C04.rejected",
+                    format!("damaged frame #{} of a run of {} damaged frames in one buffer was delivered; fault={}; delivered starts {:?}", b, parts.len(), detail(), starts),
+                    rp(),
+                );
+            }
+        }
+    }
+}
+
 fn allowed_positions(frame_len: usize) -> Vec<usize> {
     let mut v: Vec<usize> = (8..14).collect();
     v.extend(24..frame_len * 8);
@@ -420,6 +467,32 @@ fn c04_frame(ctx: &mut Ctx, rng: &mut Rng, f: &[u8], thorough: bool, label: &str
             c04_after_copy(ctx, f, &g, "single_bit", || json!({"bits":[a]}));
         }
         bits::flip_bit(&mut g, a);
+    }
+    // runs of damaged copies in one buffer: every ordered pair of single-bit errors in the checksum, pairs of a
+    // checksum error with an error elsewhere (both orders), and runs of three
+    {
+        let crc0 = nbits - 24;
+        let one = |a: usize| {
+            let mut d = f.to_vec();
+            bits::flip_bit(&mut d, a);
+            d
+        };
+        for a in crc0..nbits {
+            let da = one(a);
+            for b in crc0..nbits {
+                let db = one(b);
+                c04_run_of_damaged(ctx, &[&da, &db], || json!({"bits_first":[a],"bits_second":[b]}));
+            }
+            for _ in 0..6 {
+                let b = *rng.pick(&pos);
+                let db = one(b);
+                c04_run_of_damaged(ctx, &[&da, &db], || json!({"bits_first":[a],"bits_second":[b]}));
+                c04_run_of_damaged(ctx, &[&db, &da], || json!({"bits_first":[b],"bits_second":[a]}));
+                let c = crc0 + rng.usize_below(24);
+                let dc = one(c);
+                c04_run_of_damaged(ctx, &[&da, &db, &dc], || json!({"bits_first":[a],"bits_second":[b],"bits_third":[c]}));
+            }
+        }
     }
     // all 63 reserved-bit patterns after an intact copy
     for r in 1..64u8 {
@@ -612,7 +685,7 @@ pub fn c04(p: &Params) -> Outcome {
     }
     Outcome {
         ctx: total,
-        rule: "fault injection on valid frames (synthetic payload lengths and library-generated frames of message types): single bits, bit pairs, odd-weight patterns, bursts 2..=24; evaluations = damaged frames presented; every damaged frame is non-trivial; distinct by hash of the damaged frame".into(),
+        rule: "fault injection on valid frames (synthetic payload lengths and library-generated frames of message types): single bits, bit pairs, odd-weight patterns, bursts 2..=24, the damaged frame after an intact copy, runs of two and three damaged copies in one buffer (all ordered pairs of checksum-bit errors); evaluations = damaged frames presented; every damaged frame is non-trivial; distinct by hash of the damaged frame".into(),
         exhaustive: false,
         extra: json!({}),
     }
@@ -1363,6 +1436,11 @@ pub fn replay(p: &Params, v: &Value) -> Outcome {
         ("C04", "valid_then_damaged") => {
             let valid = unhex(v["valid"].as_str().unwrap_or(""));
             c04_after_copy(&mut ctx, &valid, &bytes, "replay", || json!("replayed"));
+        }
+        ("C04", "run_of_damaged") => {
+            let parts: Vec<Vec<u8>> = v["parts"].as_array().map(|a| a.iter().map(|x| unhex(x.as_str().unwrap_or(""))).collect()).unwrap_or_default();
+            let refs: Vec<&[u8]> = parts.iter().map(|p| &p[..]).collect();
+            c04_run_of_damaged(&mut ctx, &refs, || json!("replayed"));
         }
         ("C05", "buffer") => c05_check(&mut ctx, &bytes, 0),
         ("C06", "stream_schedule") => {
